@@ -43,7 +43,7 @@ CHECKS = ['--bounds-check', '--pointer-check', '--signed-overflow-check', '--div
 
 def cbmc_flags(group, extra_defs=None):
     f = ['--bounds-check', '--pointer-check', '--signed-overflow-check', '--div-by-zero-check']
-    for c in group.lst('checks'):
+    for c in group.lst('flags'):
         f.append('--' + c)
     if group.get('unwind'): f += ['--unwind', group.get('unwind')]
     if group.get('unwindset'): f += ['--unwindset', group.get('unwindset')]
@@ -71,10 +71,10 @@ def parse_json_ui(text):
         if 'messageText' in item: msgs.append(item['messageText'])
     return results, verdict, msgs
 
-def run_group(spec, group, ctext_spliced, workdir, timeout, trace=False):
+def run_group(spec, group, ctext_spliced, workdir, timeout, trace=False, tag=''):
     """compile + instrument + solve one group. Returns GroupResult."""
     r = GroupResult(group)
-    base = os.path.join(workdir, group.name + ('.f' if trace else ''))
+    base = os.path.join(workdir, group.name + ('.f' if trace else '') + tag)
     cfile = base + '.c'
     open(cfile, 'w').write(ctext_spliced)
     h = 'harness_' + group.name
@@ -154,8 +154,11 @@ def harness_inputs_from_trace(trace, prefix='in_'):
 
 def flatten_value(lhs, v):
     out = {}
+    lhs = re.sub(r'\[(\d+)l\]', r'[\1]', lhs)
     if 'data' in v and not isinstance(v.get('data'), (dict, list)):
-        out[lhs] = v['data']
+        d = v['data']
+        if isinstance(d, str): d = re.sub(r'(?<=\d)(ul|l|u|ll|ull)$', '', d)
+        out[lhs] = d
     elif 'elements' in v:
         for e in v['elements']:
             out.update(flatten_value('%s[%s]' % (lhs, e.get('index')), e.get('value', {})))
